@@ -387,9 +387,8 @@ def run(ctx):
     ]
     ctx.build_props("props/C03.v")
     rng = ctx.rng
-    q = ctx.quick
-    cases = fixed_cases() + derive_cases(rng, ctx, n_random=ctx.n(8, 90), n_over=ctx.n(5, 50), n_graze=ctx.n(5, 50),
-                                         n_edge=ctx.n(5, 50), n_zero=ctx.n(5, 50))
+    cases = fixed_cases() + derive_cases(rng, ctx, n_random=ctx.n(16, 90), n_over=ctx.n(10, 50), n_graze=ctx.n(10, 50),
+                                         n_edge=ctx.n(10, 50), n_zero=ctx.n(8, 50))
     for i, c in enumerate(cases):
         c["key"] = "%d" % i
     items, recs = [], []
